@@ -723,6 +723,9 @@ def _exp_cap(prog, fn):
             rv = s["rv"]
             if rv["k"] == "binop" and rv["op"] == "Lt" and rv["b"]["k"] == "const" and rv["b"].get("ty") == "i32" and op_int(rv["b"]) >= 100:
                 caps.append((op_int(rv["b"]), s.get("ln")))
+        for b, t in g.calls():
+            if callee_is(t, "min") and len(t["args"]) > 1 and op_int(t["args"][1]) is not None and t["args"][1].get("ty") == "i32":
+                caps.append((op_int(t["args"][1]), t.get("ln")))
     return caps
 
 
